@@ -68,8 +68,8 @@ class VLoop(asyncio.SelectorEventLoop):
 class LogReader(asyncio.StreamReader):
     """the real StreamReader; every read is logged and counted per loop step"""
 
-    def __init__(self, sess: "Session", conn: int):
-        super().__init__(limit=2 ** 16, loop=sess.loop)
+    def __init__(self, sess: "Session", conn: int, limit: int = 2 ** 16):
+        super().__init__(limit=limit, loop=sess.loop)
         self._sess, self._conn = sess, conn
         self._step, self._count = -1, 0
 
@@ -161,6 +161,10 @@ class FakeWriter:
         return self.closed
 
     async def wait_closed(self):
+        # as asyncio's StreamWriter.wait_closed(): a link that was lost with an error hands that error out again
+        exc = self._reader.exception()
+        if exc is not None:
+            raise exc
         return None
 
     def get_extra_info(self, name, default=None):
@@ -228,7 +232,8 @@ class Session:
         if res == "refuse":
             self.ev("OpenResult", k=n, r="refuse")
             raise ConnectionRefusedError(f"attempt {n} refused")
-        reader = LogReader(self, n)
+        # (the stream limit the client asks for is honoured, as asyncio.open_connection / open_serial_connection do)
+        reader = LogReader(self, n, limit=k.get("limit", 2 ** 16))
         writer = FakeWriter(self, n, reader)
         self.readers[n], self.writers[n] = reader, writer
         self.ev("OpenResult", k=n, r="accept")
